@@ -30,3 +30,15 @@ VARIANTS = [
     # twins
     V("twin-loop-form", AD, "        for i in range(ys.size(0) - 1, 0, -1):", "        for i in reversed(range(1, ys.size(0))):", expect="silent"),
 ]
+
+ADJ = AD
+INIT = "        extra_solver_state = solver.init_extra_solver_state(ts[0], y0)\n\n    ys, *extra_solver_state = _SdeintAdjointMethod.apply("
+VARIANTS += [
+    # round-6 C10 seed: the initial solver state is computed without a graph when y0 is a constant
+    V("init-extras-grad-only-if-y0-requires-grad", ADJ, INIT,
+      "        with torch.set_grad_enabled(torch.is_grad_enabled() and y0.requires_grad):\n            extra_solver_state = solver.init_extra_solver_state(ts[0], y0)\n\n    ys, *extra_solver_state = _SdeintAdjointMethod.apply(", rule="R09.8"),
+    V("init-extras-under-no-grad", ADJ, INIT,
+      "        with torch.no_grad():\n            extra_solver_state = solver.init_extra_solver_state(ts[0], y0)\n\n    ys, *extra_solver_state = _SdeintAdjointMethod.apply(", rule="R09.8"),
+    V("twin-init-extras-in-ambient-mode", ADJ, INIT,
+      "        with torch.set_grad_enabled(torch.is_grad_enabled()):\n            extra_solver_state = solver.init_extra_solver_state(ts[0], y0)\n\n    ys, *extra_solver_state = _SdeintAdjointMethod.apply(", expect="silent"),
+]
